@@ -7,7 +7,7 @@ global size_of usize == 8;
 pub mod io {
     use vstd::prelude::*;
     #[derive(Clone, Copy, PartialEq, Eq)]
-    pub enum ErrorKind { InvalidData, Other, ConnectionReset, NotConnected, TimedOut }
+    pub enum ErrorKind { NotFound, PermissionDenied, ConnectionRefused, ConnectionReset, ConnectionAborted, NotConnected, AddrInUse, AddrNotAvailable, BrokenPipe, AlreadyExists, WouldBlock, InvalidInput, InvalidData, TimedOut, WriteZero, Interrupted, Unsupported, UnexpectedEof, OutOfMemory, Other }
     #[verifier::external_body]
     pub struct Error { _p: core::marker::PhantomData<u8> }
     impl Error {
